@@ -239,14 +239,81 @@ pub fn check(c: &Case) -> CheckResult {
     let nontrivial = histories >= 3 && runs.iter().any(|r| r.cells.len() >= 2);
     Ok(Outcome::new(nontrivial, fp_of(&text), classes))
 }
-pub const CLASSES: &[&str] = &["overwrite_history", "parse_of_own_text", "parse_of_noncanonical_text", "collect_from_bare_pairs", "run_of_two_or_more", "has_leftovers"];
+pub const CLASSES: &[&str] = &["overwrite_history", "parse_of_own_text", "parse_of_noncanonical_text", "collect_from_bare_pairs", "run_of_two_or_more", "has_leftovers", "history_around_256_calls", "history_around_65536_calls"];
+
+// ---------------------------------------------------------------------------------------------
+// long formatting histories on one thread
+
+/// Range Y (a row pattern, in half of the cases with one combo of a complete cell removed) is
+/// formatted first; then X (the same row with that combo back resp. one cell changed), then
+/// `fillers` ranges living in another row, then Y again `probes` times.  Every probe must give the
+/// text of the first call - whatever was formatted 255, 256, 65,535 or 65,536 calls earlier on the
+/// thread.  With `parse_back` (C06) the first and last probe texts must also parse back to Y.
+#[derive(Clone, Debug, Serialize, Deserialize)]
+pub struct FormatHistory {
+    pub row: usize,
+    pub code: u64,
+    pub cell: u8,
+    pub fillers: u32,
+    pub probes: u32,
+}
+
+pub fn check_format_history(c: &FormatHistory, parse_back: bool) -> CheckResult {
+    let rws = rows();
+    vensure!(c.row < rws.len() && c.fillers <= 200_000 && c.probes <= 200, "bad-case", "history outside the domain");
+    let len = rws[c.row].len() as u32;
+    let code = c.code % 3u64.pow(len);
+    let k = c.cell as u32 % len;
+    let digit = code / 3u64.pow(k) % 3;
+    let (mx, my) = if (c.cell >> 4) % 2 == 0 {
+        // X holds cell k complete, Y is X without one combo of that cell
+        let code_x = if digit == 0 { code + 3u64.pow(k) } else { code };
+        let mx = row_pattern(c.row, code_x, 1.0, 0.5);
+        let mut my = mx.clone();
+        let combos = rws[c.row][k as usize].combos();
+        my.remove(&combos[(c.cell >> 5) as usize % combos.len()]);
+        (mx, my)
+    } else {
+        // X: one cell of the row takes the next state (absent -> 1.0 -> 0.5 -> absent)
+        let code_x = code - digit * 3u64.pow(k) + (digit + 1) % 3 * 3u64.pow(k);
+        (row_pattern(c.row, code_x, 1.0, 0.5), row_pattern(c.row, code, 1.0, 0.5))
+    };
+    let ry = to_espada(&my);
+    let rx = to_espada(&mx);
+    let other = (c.row + 3 + c.cell as usize % 5) % rws.len();
+    let fl: Vec<HandRange> = (0..4u64).map(|j| to_espada(&row_pattern(other, (c.code / 7 + j * 5) % 3u64.pow(rws[other].len() as u32), 0.25, 1.0))).collect();
+    let t0 = ry.to_string();
+    std::hint::black_box(rx.to_string().len());
+    for i in 0..c.fillers {
+        std::hint::black_box(fl[i as usize % fl.len()].to_string().len());
+    }
+    let short = |s: &str| s.chars().take(200).collect::<String>();
+    for p in 0..c.probes {
+        let t = ry.to_string();
+        if !parse_back && t != t0 {
+            return Err(Fail::new("history:text-depends-on-earlier-calls", format!("a range prints as {:?} at first and as {:?} after a range differing in one combo or cell and {} ranges of another row (+ {} repeats of itself) were formatted on the thread", short(&t0), short(&t), c.fillers, p)));
+        }
+        if parse_back && (t != t0 || p == 0) {
+            // C06 only asks for the round trip: a text that differs from the first one is parsed back
+            match t.parse::<HandRange>() {
+                Ok(back) if diff_maps(&my, &espada_map(&back)).is_none() => {}
+                _ => return Err(Fail::new("history:range-roundtrip", format!("after {} formatting calls on the thread the text {:?} does not parse back to the range (its first text was {:?})", c.fillers + p + 2, short(&t), short(&t0)))),
+            }
+        }
+    }
+    Ok(Outcome::new(true, fp_of(&format!("{:?}", c)), if c.fillers >= 60_000 { 128 } else { 64 }))
+}
+
+pub fn format_history_strategy() -> impl Strategy<Value = FormatHistory> {
+    (0usize..25, any::<u64>(), any::<u8>(), prop_oneof![3 => Just(230u32), 1 => Just(65_500u32)], 0u32..16).prop_map(|(row, code, cell, base, off)| FormatHistory { row, code, cell, fillers: base + off, probes: 48 })
+}
 
 pub fn strategy(max_partial: usize) -> impl Strategy<Value = Case> {
     (range_strategy(max_partial), any::<u64>()).prop_map(|(range, seed)| Case { range, seed })
 }
 
 pub fn run(ctx: &mut Ctx) {
-    ctx.rule = "target ranges from C06's row-pattern generator (and every pattern of every row with <= 7 cells, thorough: <= 10 cells; C06 sweeps every row for the round trip); for each target 5-7 construction histories are replayed: sorted insertion, permuted insertion with swapped card order, wrong weights overwritten later plus duplicates, reverse insertion with many repeated inserts, parse of espada's own text, parse of the model's non-canonical text of the same contents (runs split into single rank pairs, rank pairs split into combos in either card order, tokens shuffled, a superseded token first), collection from bare pairs when all weights are 1. Oracle: all histories give == ranges with byte-identical text; the text, read by the model's own tokenizer, has its rank-pair tokens in one-to-one correspondence, in row order (pockets aces down; per high card suited then offsuit), with the model's maximal runs (same cells, same weight bits), followed by single-combo tokens whose set equals the model's leftovers. Non-trivial = >= 3 histories and >= 1 run of length >= 2; distinct by text.".into();
+    ctx.rule = "target ranges from C06's row-pattern generator (and every pattern of every row with <= 7 cells, thorough: <= 10 cells; C06 sweeps every row for the round trip); for each target 5-7 construction histories are replayed: sorted insertion, permuted insertion with swapped card order, wrong weights overwritten later plus duplicates, reverse insertion with many repeated inserts, parse of espada's own text, parse of the model's non-canonical text of the same contents (runs split into single rank pairs, rank pairs split into combos in either card order, tokens shuffled, a superseded token first), collection from bare pairs when all weights are 1. Oracle: all histories give == ranges with byte-identical text; the text, read by the model's own tokenizer, has its rank-pair tokens in one-to-one correspondence, in row order (pockets aces down; per high card suited then offsuit), with the model's maximal runs (same cells, same weight bits), followed by single-combo tokens whose set equals the model's leftovers. Stream long_format_histories: a row pattern is formatted, then the same row with one cell changed, then 230-245 or 65,500-65,515 ranges of another row, then the first range again 48 times - each time the first text must come out (wrap points of 8- and 16-bit call counters). Non-trivial = >= 3 histories and >= 1 run of length >= 2; distinct by text.".into();
     ctx.assumptions = vec![
         "duplicated leftover tokens for partial pocket pairs are pinned by a repository test and not forbidden by the statement: only the set and placement of leftover tokens is checked".into(),
         "a history whose parse does not reproduce the target contents is skipped here (that is C05's subject)".into(),
@@ -269,11 +336,16 @@ pub fn run(ctx: &mut Ctx) {
         check,
         |c| json!(to_espada(&c.range.map()).to_string()),
     );
+    let cases = ctx.tier.pick(48, 800);
+    ctx.run_random_brief(StreamCfg::new("long_format_histories", CLASSES, cases).shrink(20), format_history_strategy, |c| check_format_history(c, false), |c| json!({"row": c.row, "fillers": c.fillers, "probes": c.probes}));
     if ctx.tier == Tier::Thorough && !ctx.failed() {
         crate::fuzzrun::campaign(ctx, "fz_range", 1000, 16, 400);
     }
 }
 
-pub fn replay(_stream: &str, path: &str, case: &Value) -> i32 {
+pub fn replay(stream: &str, path: &str, case: &Value) -> i32 {
+    if stream == "long_format_histories" {
+        return replay_case::<FormatHistory>("C17", path, case, |c| check_format_history(c, false));
+    }
     replay_case::<Case>("C17", path, case, check)
 }
